@@ -433,6 +433,38 @@ def same_stream(it, y, r):
     return False
 
 
+def retained_in(env, target, skip=()):
+    """names of local containers (lists / tuples / dicts, searched deeply) that still hold a reference to `target`"""
+    from pyvc.api import PyList, SymList, PyDict
+    out = []
+
+    def holds(x, depth=0):
+        if x is target:
+            return True
+        if depth > 6:
+            return False
+        if isinstance(x, (tuple, list)):
+            return any(holds(y, depth + 1) for y in x)
+        if isinstance(x, (PyList, SymList)):
+            return any(holds(y, depth + 1) for y in x.items)
+        if isinstance(x, PyDict):
+            return any(holds(y, depth + 1) for y in x.d.values())
+        return False
+    e = env
+    seen = set()
+    while e is not None:
+        for k, v in list(e.vars.items()):
+            if k in seen or k in skip or v is target:
+                continue
+            seen.add(k)
+            if holds(v):
+                out.append(k)
+        e = getattr(e, 'parent', None)
+        if e is not None and getattr(e, 'is_module_env', False):
+            break
+    return out
+
+
 def same_row_object(it, y, row):
     """True when the yielded row IS the input row object; a different dict may be an equal copy, which this obligation cannot
     tell from a wrong row without a content obligation -> UNDECIDED, not a violation"""
@@ -528,7 +560,7 @@ def search_loop(any_term, cond_of, tag, state_unchanged=None, inv=None, keep=())
     return LoopSpec(at_start=at_start, at_end=at_end, at_break=at_break, at_exit=at_exit, inv=inv, keep=keep)
 
 
-def havoc_mutable_scalars(it, inst, containers=False):
+def havoc_mutable_scalars(it, inst, containers=False, memo_none=False):
     """object-history quantification: instance attributes holding scalars that some method other than __init__ assigns
     (self.x = .. / self.x += ..) are replaced by arbitrary values of the same sort, so that a method contract holds for
     every earlier use of the object, not only for a freshly constructed one"""
@@ -594,6 +626,13 @@ def havoc_mutable_scalars(it, inst, containers=False):
             inst.attrs[a] = SV(it.fresh('obj_' + a, IntS))
         elif isinstance(v, str):
             inst.attrs[a] = SV(it.fresh('obj_' + a, StrS))
+        elif v is None and a in inst.attrs and memo_none:
+            # a slot initialised to None and filled by some method (a cache / memo): after an arbitrary history it holds
+            # None or any value
+            from pyvc.api import Cell
+            inst.attrs[a] = SV(it.fresh('obj_' + a, Cell))
+            it.path.info.setdefault('history_slots', []).append(a)
+            it.path.info.setdefault('needs_invariant', 'the object has a memo slot (%s) whose content after earlier calls is arbitrary' % a)
         else:
             continue
         out.append(a)
